@@ -247,6 +247,11 @@ def layouts():
     L.append(("continuation_starts_like_def", lambda d, c, desc: ["@{}(".format(d), "    lambda x, xs:", "    defined(x) and", "    classes_ok(xs) and",
                                                                   "    async_def_ok(x) and", "    {},".format(c), "    description={!r})".format(desc)]))
     L.append(("continuation_starts_like_decorator", lambda d, c, desc: ["@{}(".format(d), "    lambda x, xs: (M", "    @M or", "    {}))".format(c)]))
+    # a multi-line string literal inside the condition: its lines are no source lines (their indentation and their look
+    # must not matter, and the text shown must still parse to the expression that was evaluated)
+    L.append(("string_line_at_column0", lambda d, c, desc: ["@{}(lambda x, xs: 'z' != \"\"\"a".format(d), "<COL0>b\"\"\" and ({}))".format(c)]))
+    L.append(("string_line_like_comment", lambda d, c, desc: ["@{}(lambda x, xs: 'z' != \"\"\"a".format(d), "    # b\"\"\" and ({}))".format(c)]))
+    L.append(("string_line_indented", lambda d, c, desc: ["@{}(lambda x, xs: 'z' != \"\"\"a".format(d), "    b\"\"\" and ({}))".format(c)]))
     L.append(("error_kw_after", lambda d, c, desc: ["@{}(lambda x, xs: {}, error=MyErr)".format(d, c)]))
     return L
 
@@ -272,6 +277,7 @@ def render_layout(layout_fn, alias, cond, neighbours, scope, target):
             c = c.replace("defined(x)", "defined(self.x)").replace("classes_ok(xs)", "classes_ok(self.xs)").replace("async_def_ok(x)", "async_def_ok(self.x)")
     if any("@M or" in ln for ln in deco):
         c = "(M @ M or " + c + ")"
+    string_layout = len(deco) == 2 and deco[0].endswith('"""a')
     if is_inv:
         deco = [ln.replace("lambda x, xs:", "lambda self:") for ln in deco]
     other_i = "@icontract.invariant(lambda self: True)" if is_inv else "@icontract.require(lambda x: True)"
@@ -303,6 +309,11 @@ def render_layout(layout_fn, alias, cond, neighbours, scope, target):
            "def RUN(c):", "    try:", "        while True: c.send(None)", "    except StopIteration as s:", "        return s.value", ""]
     ind = {"module": 0, "class": 1, "nested_class": 2, "nested_function": 1}[scope]
     pad = "    " * ind
+    if string_layout:
+        # the value of the literal: everything between the quotes as it stands in the file
+        second = deco[1]
+        tail = second[len("<COL0>"):] if second.startswith("<COL0>") else pad + second
+        c = "'z' != {!r} and ({})".format("a\n" + tail.split('"""')[0], c)
     body = [(ln.replace("<COL0>", "") if ln.startswith("<COL0>") else (pad + ln if ln else "")) for ln in block]
     name = "K" if (is_inv) else "f"
     if scope == "module":
